@@ -464,10 +464,16 @@ class Environment:
         if not self.first_invocation:
             return
 
+        # Values given on the command line are still pending (the options do
+        # not exist yet) and are applied when the options are created: they
+        # take precedence over the machine files. Every (sub)project's
+        # interpreter comes here; the machine file values are for the first.
+        store = self.coredata.optstore
+        skip = set(store.pending_options) | set(store.options)
         self.coredata.init_backend_options(backend_name)
         for k, v in self.options.items():
-            if self.coredata.optstore.is_backend_option(k):
-                self.coredata.optstore.set_option(k, v)
+            if store.is_backend_option(k) and k not in skip:
+                store.set_option(k, v)
 
     def is_cross_build(self, when_building_for: MachineChoice = MachineChoice.HOST) -> bool:
         return self.machine_map[when_building_for] is not self.machine_map.build
